@@ -32,7 +32,7 @@ func checkC16(c *Ctx, r *Report) {
 			for _, e := range node.In {
 				if e.Caller.Func.Pkg == c.pkg("server") {
 					tmp := newReport(r.Prop, r.Tier)
-					c15Step(c, tmp, e.Caller.Func)
+					c15Step(c, tmp, nil, e.Caller.Func)
 					for _, it := range tmp.items {
 						it.Rule = "R16.0"
 						r.add(it)
@@ -191,9 +191,16 @@ func c16Assembler(c *Ctx, r *Report) {
 		case strings.HasPrefix(src, "global:"):
 			// a constant error value has transaction id 0: acceptable only when the connection is closed and the stream was not Modbus
 			closing := false
+			roles := c15ResultRoles(nil, fr.fn)
 			for _, rs := range fr.returns {
-				if rs.instr.Block() == cr.instr.Block() && len(rs.vals) >= 2 {
-					if b, ok := rs.vals[len(rs.vals)-1].(ABool); ok && b.f.kind == fConst && b.f.b {
+				if rs.instr.Block() == cr.instr.Block() && roles.closeC >= 0 {
+					cv := AV(nil)
+					if roles.strct {
+						cv = an.u.fieldOf(rs.vals[0], roles.closeC)
+					} else {
+						cv = rs.vals[roles.closeC]
+					}
+					if b, ok := cv.(ABool); ok && b.f.kind == fConst && b.f.b {
 						closing = true
 					}
 				}
